@@ -1,5 +1,6 @@
 import TantivyModel.Proofs.Store.Codec
 import TantivyModel.Proofs.Store.Cache
+import TantivyModel.Proofs.Store.SkipIndex
 /-!
 # C09 — Stored documents are returned exactly as they were added
 
@@ -61,6 +62,56 @@ theorem C09_serialized_doc_nonempty (isStored : BitVec 32 → Bool) (doc : List 
     serializeDoc isStored doc ≠ [] :=
   encStoredDoc_ne_nil _
 
+/-! ### skip index -/
+
+/-- a block of checkpoints (`CheckpointBlock::serialize` / `deserialize`) reads back exactly -/
+theorem C09_checkpoint_block_roundtrip (cs : List Checkpoint) (d b : Nat) (rest : Bytes)
+    (hne : cs ≠ []) (h : ChainFrom d b cs) : decBlock (encBlock cs ++ rest) = some (cs, rest) :=
+  decBlock_enc cs d b rest hne h
+
+/-- `SkipIndex::open` recovers the layers `serialize_into` wrote (any number of layers) -/
+theorem C09_skip_index_open_serialize (layers : List Bytes) :
+    openSkipIndex (encSkipIndex layers) = some layers :=
+  openSkipIndex_enc layers
+
+/-- For every sequence of contiguous checkpoints covering `[0, N)` — any number of checkpoints,
+hence any number of layers, for every period `P ≥ 2` — `seek d` on the index that
+`SkipIndexBuilder` serialises is the first checkpoint whose doc range ends after `d`:
+the unique checkpoint containing `d` when `d < N`, nothing when `d ≥ N`. -/
+theorem C09_skip_index_seek (P : Nat) (hP : 2 ≤ P) (cps : List Checkpoint) (hne : cps ≠ [])
+    (hc : ChainFrom 0 0 cps) (d : Nat) :
+    (openSkipIndex (serializeSkipIndex P cps)).map (fun idx => seek idx d)
+        = some (cps.find? fun c => decide (c.docEnd > d)) ∧
+    (d < endD 0 cps → ∃ c, seek (finishedLayers P cps) d = some c ∧ c ∈ cps ∧ c.docStart ≤ d ∧ d < c.docEnd ∧
+        ∀ c' ∈ cps, c'.docStart ≤ d → d < c'.docEnd → c'.docStart = c.docStart ∧ c'.docEnd = c.docEnd) ∧
+    (endD 0 cps ≤ d → seek (finishedLayers P cps) d = none) := by
+  have hs := seek_finished P hP cps hne hc d
+  obtain ⟨f1, f2⟩ := find_endsAfter_spec d cps 0 0 hc (Nat.zero_le _)
+  refine ⟨?_, ?_, ?_⟩
+  · unfold serializeSkipIndex
+    rw [openSkipIndex_enc]
+    simp only [Option.map_some, hs]
+    rfl
+  · intro hlt
+    obtain ⟨c, h1, h2, h3, h4⟩ := f1 hlt
+    refine ⟨c, by rw [hs, h1], h2, h3, h4, ?_⟩
+    intro c' hc' h5 h6
+    exact chain_unique d cps 0 0 hc c' hc' c h2 h5 h6 h3 h4
+  · intro hge
+    rw [hs, f2 hge]
+
+/-- the instance the code uses: `CHECKPOINT_PERIOD` as extracted from `store/index/mod.rs` -/
+theorem C09_skip_index_seek_period (cps : List Checkpoint) (hne : cps ≠ []) (hc : ChainFrom 0 0 cps)
+    (d : Nat) : seek (finishedLayers Gen.CHECKPOINT_PERIOD cps) d = cps.find? fun c => decide (c.docEnd > d) :=
+  seek_finished Gen.CHECKPOINT_PERIOD (by decide) cps hne hc d
+
+/-- an index without any checkpoint answers every `seek` with the bogus initial checkpoint
+(doc range `0..1`, byte range `0..0`) instead of `None` — harmless only because a store always
+holds at least one document -/
+theorem C09_skip_index_seek_empty_store (P d : Nat) :
+    seek (finishedLayers P []) d = some { docStart := 0, docEnd := 1, byteStart := 0, byteEnd := 0 } := by
+  simp [finishedLayers, buildLayers, finishLayers, seek, seekLoop, seekInit]
+
 /-! ### block cache -/
 
 /-- for every access sequence and every capacity (0 included), reading through the LRU block cache
@@ -90,5 +141,14 @@ example : deserializeDoc (serializeDoc (fun f => f ≠ 1) exampleDoc)
 
 example : vintEnc 300 = [44, 130] := by
   rw [vintEnc]; simp [stop_eq]; rw [vintEnc]; simp [stop_eq]
+
+/-- 70 one-document checkpoints: two full layers and a third one (8·8 < 70) -/
+def exampleCheckpoints : List Checkpoint :=
+  (List.range 70).map fun i => { docStart := i, docEnd := i + 1, byteStart := 3 * i, byteEnd := 3 * i + 3 }
+
+example : ChainFrom 0 0 exampleCheckpoints := by decide +kernel
+example : (finishedLayers 8 exampleCheckpoints).length = 3 := by decide
+example : seek (finishedLayers 8 exampleCheckpoints) 64
+    = some { docStart := 64, docEnd := 65, byteStart := 192, byteEnd := 195 } := by decide +kernel
 
 end TantivyModel.C09
